@@ -205,6 +205,40 @@ def run_cfg(args):
                         bad = FL.validity(cfg, arr.reshape((1,) + arr.shape) if arr.ndim in (1, 2) and arr.shape in ((4,), (3,), (3, 3)) else arr, 1)
                         if bad:
                             t.fail("C03|%s|%s|%s|canonical-pose" % (cname, rname, bad), dict(case, got=arr))
+        # ... and the rows of the angle sweep next to its ends (accelerometer and magnetometer 1 to 5 degrees from parallel and from
+        # anti-parallel: the boundary of the property's domain), one sample at a time
+        if cfg["f"] in SINGLE_FRAME and cfg["arch"] == "ACCMAG":
+            import inspect as _insp
+            rng_ = core.rng(seed, "c03-sweep-1", cname)
+            _, acc, mag = sweep_history(rng_, 1780)
+            for k_ in list(range(0, 40, 2)) + list(range(1741, 1780, 2)):
+                a1, m1 = acc[k_], mag[k_]
+                routes1 = [("one-sample constructor", lambda: FL.batch(cfg, None, a1, m1)[1])]
+                try:
+                    est = getattr(FL.create(cfg), "estimate", None)
+                except Exception:
+                    est = None
+                if est is not None and ("representation" in _insp.signature(est).parameters or cfg["rep"] == "quaternion"):
+                    ek = {"representation": cfg["rep"]} if "representation" in _insp.signature(est).parameters else {}
+                    if cfg["f"] == "FLAE":
+                        ek["method"] = cfg["mode"]
+                    routes1.append(("estimate()", lambda est=est, ek=ek: est(a1.copy(), m1.copy(), **ek)))
+                for rname, fn1 in routes1:
+                    t.calls += 1
+                    t.keys.add((cname, rname, "sweep-ends", k_))
+                    o = core.outcome(fn1)
+                    case = {"cfg": cfg, "history": "angle-sweep", "row": k_, "acc": a1, "mag": m1, "route": rname,
+                            "mutual_angle_deg": 1.0 + 178.0 * (k_ + 0.5) / 1780}
+                    if o[0] != "ok":
+                        t.fail("C03|%s|%s|raises-%s|random" % (cname, rname, o[1]), dict(case, err=o[2]))
+                        continue
+                    if o[1] is None:
+                        t.fail("C03|%s|%s|returns-None|random" % (cname, rname), case)
+                        continue
+                    arr = np.asarray(o[1])
+                    bad = FL.validity(cfg, arr.reshape((1,) + arr.shape) if arr.shape in ((4,), (3,), (3, 3)) else arr, 1)
+                    if bad:
+                        t.fail("C03|%s|%s|%s|random" % (cname, rname, bad), dict(case, got=arr))
         # one LONG history per recursive class and sensor combination (default gain and rate, quaternion output): "for any history
         # length"; a recursion rewritten in closed form (powers of the gain, cumulative sums) under- or overflows only after thousands of rows
         if cfg["f"] in LONG_CLASSES and cfg["gain"] == "default" and cfg["rate"] == "100Hz" and cfg["rep"] == "quaternion" and cfg["mode"] in ("-", "fixed", "closed"):
